@@ -298,6 +298,18 @@ func classifyTail(stmts []ast.Stmt, sh shape) shape {
 			}
 		}
 	}
+	// 3c. x, err = recv.base.M(args); if <cond> { <local assignments> }; return <post>      (BasePathFS.Getwd)
+	if len(stmts) == 3 && retOf(stmts[2]) != nil {
+		if as, ok := stmts[0].(*ast.AssignStmt); ok && len(as.Rhs) == 1 {
+			if m, args, ok := baseCall(as.Rhs[0]); ok {
+				if is, ok := stmts[1].(*ast.IfStmt); ok && !mentions(is, "baseFS") && !mentions(is, "baseFile") && is.Else == nil {
+					sh.kind, sh.base, sh.args = "forward", m, argTexts(args, false)
+					sh.wrapRes = "if " + src(is.Cond) + " " + src(is.Body) + " | " + src(stmts[2])
+					return sh
+				}
+			}
+		}
+	}
 	// 4. x, err = recv.base.M(args); for … { post }; return   (BasePathFS.Glob)
 	if len(stmts) == 3 && retOf(stmts[2]) != nil {
 		if as, ok := stmts[0].(*ast.AssignStmt); ok && len(as.Rhs) == 1 {
